@@ -11,7 +11,7 @@ from .c01 import balance_violations
 PROPERTY = "C14"
 RULE = ("E1 x E3: portfolios (contracts with spread / takes / windows / wacc, transports, storages with start = end and start != end level, "
         "inflow, multi-commodity, order book, must-run demand) with <= K deviations x interval sizes {12h, d, 5h, 2d} x horizons (aligned, "
-        "starting 06:00, partial last step, autumn clock change, 3 days); distinct = canonical scenario; non-trivial = all interval "
+        "starting 06:00, partial last step, autumn clock change, 3 days, daily steps across the spring / autumn clock change); distinct = canonical scenario; non-trivial = all interval "
         "problems optimal with non-zero dispatch and at least two intervals; family mip: a plant with on/off variables (nothing coupling steps) "
         "or a storage with the no-simultaneous option, active in part of the horizon (intervals that are MIPs, LPs or contain no such unit), "
         "<= K+1 deviations, split against the unsplit problem of EAO itself")
@@ -22,7 +22,7 @@ EXPLANATION = "bounded exhaustive scenario enumeration against per-interval refe
 MIN_NONTRIVIAL_FRACTION = 0.3
 MAX_S = {"quick": 900, "thorough": 7200}
 
-FEATS = dict(grids=["8x6h", "4x6h_off", "12h_partial", "7xh_autumn", "12x2h", "8x6h_d"], price_pairs=S.PRICE_PAIRS[:1], bases=["one", "two"],
+FEATS = dict(grids=["8x6h", "4x6h_off", "12h_partial", "7xh_autumn", "12x2h", "8x6h_d", "3xd_spring", "4xd_autumn"], price_pairs=S.PRICE_PAIRS[:1], bases=["one", "two"],
              extras=["mc", "ob", "dem"], modes=["split:12h", "split:d", "split:5h", "split:2d"],
              caps=1, extra_costs=1, wacc=1, window=1, takes=1, sto_eff=1, sto_costs=1, sto_inflow=1, sto_levels=1, sto_two_nodes=1,
              tr_dir=1, tr_eff=1, tr_costs=1, tr_takes=1, mc_factors=1)
